@@ -23,6 +23,14 @@ def py_index(I):
     return _sl(I)
 
 def to_pyiga(ast, ctx):
+    if ctx.get('share') is not None and ast[0] not in ('dx', 'ds', 'let'):
+        import json
+        key = json.dumps(ast)
+        if key not in ctx['share']: ctx['share'][key] = _to_pyiga(ast, ctx)
+        return ctx['share'][key]
+    return _to_pyiga(ast, ctx)
+
+def _to_pyiga(ast, ctx):
     from pyiga import vform as V
     op = ast[0]
     R = lambda a: to_pyiga(a, ctx)
@@ -31,6 +39,12 @@ def to_pyiga(ast, ctx):
     if op == 'xvec': return ctx['vf'].Geo
     if op == 'param': return ctx['params'][ast[1]]
     if op == 'field': return ctx['fields'][ast[1]]
+    if op == 'let':
+        # a named variable; identical bodies share one variable, different bodies get different names (the name in the AST is decorative)
+        import json
+        key = json.dumps(ast[2]); lets = ctx.setdefault('lets', {})
+        if key not in lets: lets[key] = ctx['vf'].let('w%d' % len(lets), R(ast[2]))
+        return lets[key]
     if op == 'u': return ctx['u']
     if op == 'v': return ctx['v']
     if op == 'gw': return ctx['vf'].GaussWeight
@@ -72,7 +86,7 @@ def make_vform(desc):
                      spacetime=bool(desc.get('spacetime', False)))
         comps = tuple(desc.get('components', [None, None])); spaces = tuple(desc.get('spaces', [0, 0]))
         bf = vf.basisfuns(components=comps, spaces=spaces)
-        ctx = {'vf': vf, 'fields': {}, 'params': {}}
+        ctx = {'vf': vf, 'fields': {}, 'params': {}, 'share': {} if desc.get('share_objects') else None}
         if desc['arity'] == 1: ctx['u'] = bf; ctx['v'] = bf
         else: ctx['u'], ctx['v'] = bf
         for name, f in desc.get('fields', {}).items():
